@@ -366,4 +366,19 @@ def c16_f(ctx: Ctx):
     return out
 
 
-RULES = [c16_a, c16_b, c16_c, c16_d, c16_e, c16_f]
+@rule("C16-g")
+def c16_g(ctx: Ctx):
+    """The path specification distinguishes None (automatic), False (by id) and strings: no truthiness decision."""
+    from .lints import sentinel_discipline
+    return sentinel_discipline(ctx, "C16-g", [("signac.import_export:_make_path_function", "path", "path=False means 'use the job id' and '' is a format string: a truthiness test sends both to the automatic schema path")])
+
+
+@rule("C16-h")
+def c16_h(ctx: Ctx):
+    """Export / import helpers keep no state between calls."""
+    from .lints import no_memoisation_modules
+    return no_memoisation_modules(ctx, "C16-h", ("signac.import_export", "signac.linked_view", "signac.schema"),
+                                  "paths and schemas are computed from the jobs given in this call; a remembered result belongs to another selection")
+
+
+RULES = [c16_a, c16_b, c16_c, c16_d, c16_e, c16_f, c16_g, c16_h]
